@@ -11,7 +11,7 @@ WINDOWED = {
 # views whose exact-rational runs are expensive in Coq (coefficients on a 2^-32 grid): short runs only
 HEAVY = {"Ss", "Roofing", "TrendFlex", "ReFlex", "Pfe"}
 POSITIVE_ONLY = {"Drawdown", "LnReturn"}
-MAS = [("Ema", 3, E), ("Sma", 2, E), E, ("Ema", 1, E)]
+MAS = [("Ema", 3, E), ("Sma", 2, E), E, ("Ema", 1, E), ("Ss", 3, E)]
 
 def pick_n(rng, lo, hi=12):
     r = rng.below(10)
